@@ -116,6 +116,11 @@ class OrderEvaluator(object):
             raise Unsupported('free name %s' % e.id)
         if isinstance(e, ast.Tuple):
             return tuple(self.expr(x, env) for x in e.elts)
+        if isinstance(e, ast.Subscript) and isinstance(e.slice, ast.Constant) and isinstance(e.slice.value, int):
+            v = self.expr(e.value, env)
+            if isinstance(v, tuple) and -len(v) <= e.slice.value < len(v):
+                return v[e.slice.value]
+            raise Unsupported('subscript of a non-interval value: %s' % norm(e))
         if isinstance(e, ast.Call):
             if e.keywords:
                 raise Unsupported('keyword call')
